@@ -183,6 +183,33 @@ def agg_oracle(case):
         if not abs(fs[~nn].sum() - xs[~nn].sum()) <= sc:
             raise Violation("flathomogen does not preserve the group total")
 
+    # ---- same index object edited in place, then used again
+    if isinstance(idx_in, (np.ndarray, list)) and len(groups) >= 1 \
+            and idx.max() < 2**31 - 1 - 7:
+        new = idx + np.arange(len(idx)) // 2 + 1       # other grouping
+        for i, v in enumerate(new):
+            idx_in[i] = int(v)
+        out2 = dutils.aggregate(idx_in, x.copy(), 0, len(x))
+        g2 = np.unique(new)
+        exp2 = np.array([np.nansum(x[new == g]) for g in g2])
+        if len(out2) != len(g2) or not np.allclose(
+                out2, exp2, atol=1e-9 * max(1., np.nansum(np.abs(x))),
+                rtol=0):
+            raise Violation(
+                f"aggregate called again after the index object was edited "
+                f"in place: {out2.tolist()[:8]}, expected "
+                f"{exp2.tolist()[:8]} for index {new.tolist()[:12]}")
+        f2 = dutils.flathomogen(idx_in, x.copy(), len(x))
+        for g in g2:
+            sel = (new == g) & ~np.isnan(x)
+            if sel.any() and not np.allclose(f2[sel], x[sel].mean(),
+                                             atol=1e-9 * max(1., np.abs(
+                                                 x[sel]).sum()), rtol=0):
+                raise Violation("flathomogen called again after the index "
+                                "object was edited in place uses the old "
+                                "index")
+        labels.append("index-edited-in-place")
+
     # ---- goue = nse(values, flat) for complete data
     if not np.isnan(x).any() and len(groups) < len(x) and np.std(x) > 1e-6:
         f0 = dutils.flathomogen(idx, x.copy())
